@@ -15,5 +15,6 @@ def run(rep, tier, seed):
         "v2 files, longer bodies, UTF-8 multi-byte bodies, trailing whitespace and the remaining layout dimensions: bounded exhaustive run (about 22 000 v1 files, 400 v2 files) against a reference splitter",
     ]
     run_contracts(rep, "contracts.header_parse", tier, seed)
+    run_contracts(rep, "contracts.parser_read", tier, seed)
     run_contracts(rep, "contracts.header_native", tier, seed)
     replay_known_findings(rep)
